@@ -14,8 +14,9 @@ import (
 // siblings). Attribute shapes stay within what attrToValue / tags accept. Replayed from the seed.
 
 type dgen struct {
-	r   *common.Rng
-	uid int
+	r        *common.Rng
+	uid      int
+	allowBad bool // one module in six may hold a return payload the payload grammar refuses
 }
 
 func (g *dgen) fresh(p string) string { g.uid++; return fmt.Sprintf("%s%d", p, g.uid) }
@@ -130,7 +131,7 @@ func (g *dgen) stmt(depth, maxDepth, minSib int) *sysl.Statement {
 		s.Stmt = &sysl.Statement_Call{Call: &sysl.Call{Target: &sysl.AppName{Part: []string{"Ns", g.fresh("B")}}, Endpoint: g.fresh("E")}}
 	case 4:
 		p := dpayloads[g.r.Intn(len(dpayloads))]
-		if g.r.Chance(7, 8) && (p == "200 ok" || p == "500 < Err") {
+		if (!g.allowBad || g.r.Chance(3, 4)) && (p == "200 ok" || p == "500 < Err") {
 			p = "ok"
 		}
 		s.Stmt = &sysl.Statement_Ret{Ret: &sysl.Return{Payload: p}}
@@ -182,6 +183,7 @@ func (g *dgen) fields() map[string]*sysl.Type {
 
 func genDirect(seed uint64) *sysl.Module {
 	g := &dgen{r: common.NewRng(seed)}
+	g.allowBad = g.r.Chance(1, 6)
 	m := &sysl.Module{Apps: map[string]*sysl.Application{}}
 	napps := 1 + g.r.Intn(3)
 	for ai := 0; ai < napps; ai++ {
